@@ -63,6 +63,8 @@ pub fn make_ping() -> std::io::Result<(Ping, PingSource)> {
 #[inline]
 fn send_ping(fd: BorrowedFd<'_>, count: u64) -> std::io::Result<()> {
     assert!(count > 0);
+    #[cfg(calloop_verif)]
+    crate::verif::yield_point(crate::verif::Site::PingWritePre);
     match write(fd, &count.to_ne_bytes()) {
         // The write succeeded, the ping will wake up the loop.
         Ok(_) => Ok(()),
@@ -127,7 +129,11 @@ impl EventSource for PingSource {
     {
         self.event
             .process_events(readiness, token, |_, fd| {
+                #[cfg(calloop_verif)]
+                crate::verif::yield_point(crate::verif::Site::PingDrainPre);
                 let counter = drain_ping(fd.as_fd())?;
+                #[cfg(calloop_verif)]
+                crate::verif::yield_point(crate::verif::Site::PingDrainPost);
 
                 // If the LSB is set, it means we were closed. If anything else
                 // is also set, it means we were pinged. The two are not
@@ -137,6 +143,8 @@ impl EventSource for PingSource {
 
                 if ping {
                     callback((), &mut ());
+                    #[cfg(calloop_verif)]
+                    crate::verif::yield_point(crate::verif::Site::PingCbPost);
                 }
 
                 if close {
@@ -178,6 +186,8 @@ impl Ping {
         if let Err(e) = send_ping(self.event.0.as_fd(), INCREMENT_PING) {
             warn!("Failed to write a ping: {e:?}");
         }
+        #[cfg(calloop_verif)]
+        crate::verif::yield_point(crate::verif::Site::PingWritePost);
     }
 }
 
@@ -188,8 +198,12 @@ struct FlagOnDrop(Arc<OwnedFd>);
 
 impl Drop for FlagOnDrop {
     fn drop(&mut self) {
+        #[cfg(calloop_verif)]
+        crate::verif::yield_point(crate::verif::Site::PingClosePre);
         if let Err(e) = send_ping(self.0.as_fd(), INCREMENT_CLOSE) {
             warn!("Failed to send close ping: {e:?}");
         }
+        #[cfg(calloop_verif)]
+        crate::verif::yield_point(crate::verif::Site::PingWritePost);
     }
 }
